@@ -194,6 +194,36 @@ class Facts:
                     out.add(("" if f.pol else "not ") + v)
         return out
 
+    def exit_texts(self, fn, sc, PV, canon=None):
+        """Texts of the facts that hold whenever fn returns normally, raw and with local names expanded."""
+        out = set()
+        cv = canon or (lambda e: norm(e))
+        for f in self.exit_facts(fn, sc):
+            out.add(f.text())
+            if f.fn is not fn or f.node is None:
+                continue
+
+            def exp(e):
+                try:
+                    vs = PV.expand_consistent(fn, sc, e, f.node)
+                except AnalysisError:
+                    return {norm(e)}
+                res = set()
+                for v in vs:
+                    try:
+                        res.add(cv(ast.parse(v, mode="eval").body))
+                    except SyntaxError:
+                        res.add(v)
+                return res or {norm(e)}
+            if f.kind == "cmp":
+                for l in exp(f.left):
+                    for r in exp(f.right):
+                        out.add(f"{l} {f.op} {r}")
+            else:
+                for v in exp(f.expr):
+                    out.add(("" if f.pol else "not ") + v)
+        return out
+
     def completed_calls(self, fn, sc, cnode, include_self=False):
         """Call expressions whose normal completion dominates cnode."""
         g = self.A.cfg(fn, sc)
